@@ -353,14 +353,19 @@ pub fn spaces(tier: Tier, _seed: u64) -> Vec<Box<dyn Space>> {
     v.push(crate::props::gprog::spines(0, false, true, false, prog_oracle));
     v.push(crate::props::gprog::spines(1, false, true, false, prog_oracle));
     v.push(crate::props::gprog::spines(1, false, false, false, prog_oracle));
+    v.push(crate::props::gprog::grid(0, true, false, prog_oracle));
+    v.push(crate::props::gprog::grid(1, true, false, prog_oracle));
+    v.push(crate::props::gprog::grid(0, false, false, prog_oracle));
     v.push(fault_space(prog_oracle));
     v.push(arity_space());
     v.push(crate::props::c01::tok_space(true, 3, Render::Spaced, text_oracle));
+    v.push(wider_space(false, 1));
+    v.push(crate::props::gprog::spines(2, false, true, false, prog_oracle));
+    v.push(crate::props::gprog::sequences(2, true, false, prog_oracle));
     if tier.is_thorough() {
         v.push(wider_space(true, 2));
-        v.push(wider_space(false, 1));
-        v.push(crate::props::gprog::spines(2, false, true, false, prog_oracle));
-        v.push(crate::props::gprog::sequences(2, true, false, prog_oracle));
+        v.push(crate::props::gprog::grid(2, true, false, prog_oracle));
+        v.push(crate::props::gprog::spines(3, false, true, false, prog_oracle));
         v.push(crate::props::c01::tok_space(false, 4, Render::Spaced, text_oracle));
     }
     v
